@@ -50,6 +50,7 @@ type Ctx struct {
 	outcomes map[uint64]struct{}
 	vio      map[string]*Violation
 	notes    map[string]bool
+	stop     bool
 }
 
 const maxOutcomes = 200000
@@ -117,12 +118,24 @@ func (c *Ctx) Violate(v *Violation) {
 		old.Count++
 		return
 	}
+	if len(c.vio) >= maxDistinctViolations {
+		c.res.Counters["violations_beyond_cap"]++
+		c.stop = true
+		return
+	}
 	v.Count = 1
 	c.vio[v.Sig] = v
 	c.res.Violations = append(c.res.Violations, v)
 }
 
+const maxDistinctViolations = 40
+
 func (c *Ctx) Expired() bool {
+	if c.stop {
+		c.Flag("exhaustive", false)
+		c.Note("exploration stopped early: more than 40 distinct violation signatures in one worker")
+		return true
+	}
 	if !c.Deadline.IsZero() && time.Now().After(c.Deadline) {
 		c.Flag("exhaustive", false)
 		c.Note("internal deadline reached; reported counts are what was completed")
